@@ -19,7 +19,7 @@ fn spec() -> Spec {
             Kind { name: "errors", quick: 6_000, thorough: 200_000, serial: false },
             Kind { name: "mutants", quick: 10_000, thorough: 1_000_000, serial: false },
         ],
-        rule: "extract: OPW values (multiples of 1 mm, incl. zero a1/a2/b/c1/c4, negative a1/a2/b) written by the harness as URDF/xacro in every supported layout (c2 along z or x of joint 3, b on joint 3's y, c3 on joint 4 or joint 5, a2 as -z of joint 4, c4 along x or z), axis signs per joint, limits as radians / ${radians(deg)} / absent, shuffled joint order, random nesting depth, name decorations (${prefix}, side prefixes, case, underscores, KUKA style joint_a1), explicit joint-name lists (incl. a tcp name in place of joint 6), an identical second robot copy, extra fixed joints: extracted a1..c4, signs, from/to must equal the generator's; a joint without <limit> must accept every angle in the solver returned by to_robot. errors: missing joint, conflicting duplicate, malformed XML, malformed xyz: Err, never a panic. mutants: byte/line mutations of valid files: never a panic. non-trivial = extraction succeeded; distinct = hash(file text)",
+        rule: "extract: OPW values (multiples of 1 mm, incl. zero a1/a2/b/c1/c4, negative a1/a2/b) written by the harness as URDF/xacro in every supported layout (c2 along z or x of joint 3, b on joint 3's y, c3 on joint 4 or joint 5, a2 as -z of joint 4, c4 along x or z), axis signs per joint, limits as radians / ${radians(deg)} / absent, shuffled joint order, random nesting depth, name decorations (${prefix}, side prefixes, case, underscores, KUKA style joint_a1), explicit joint-name lists (incl. a tcp name in place of joint 6), an identical second robot copy, extra fixed joints: extracted a1..c4, signs, from/to must equal the generator's; a joint without <limit> must accept every angle in the solver returned by to_robot. errors: missing joint, conflicting duplicate, malformed XML, malformed xyz: Err, never a panic. mutants: byte/line mutations of valid files: never a panic. non-trivial = extraction succeeded; distinct = hash(file text) Workload additions: <limit> elements without bounds; limits up to +-720 degrees / +-12.5 rad; the solver built by to_robot judged on sampled angles against the generator's arcs; the same document read with an explicit list of its raw names before / after the automatic reading; non-ASCII name prefixes; negative c2 / c3; axis components written as reals.",
         assumptions: vec![
             "generated geometry has c2 != 0 and, for the c3-on-joint-4 layout, a2 != 0: with those values zero the single-non-zero heuristics of the extractor cannot distinguish the layouts and the description is ambiguous",
             "the dof value reported for an explicit name list with a tcp name is recorded in the evidence but not judged (the statement does not define it)",
@@ -195,10 +195,25 @@ fn gen_urdf(rng: &mut Rng) -> Gen {
         };
         let o = origins[j];
         let jtype = if !limited[j] { "continuous" } else { "revolute" };
-        joint_xml.push(format!(
-            "    <joint name=\"{}\" type=\"{}\">\n      <origin xyz=\"{} {} {}\" rpy=\"0 0 0\"/>\n      <parent link=\"l{}\"/>\n      <child link=\"l{}\"/>\n      <axis xyz=\"{} {} {}\"/>\n{}    </joint>\n",
-            names[j], jtype, fmt(o[0]), fmt(o[1]), fmt(o[2]), j, j + 1, fmt_axis(ax[0], axis_style), fmt_axis(ax[1], axis_style), fmt_axis(ax[2], axis_style), limit_xml
-        ));
+        // the children of a joint element come in any order (origin / parent / child / axis / limit)
+        let mut children: Vec<String> = vec![
+            format!("      <origin xyz=\"{} {} {}\" rpy=\"0 0 0\"/>\n", fmt(o[0]), fmt(o[1]), fmt(o[2])),
+            format!("      <parent link=\"l{}\"/>\n", j),
+            format!("      <child link=\"l{}\"/>\n", j + 1),
+            format!("      <axis xyz=\"{} {} {}\"/>\n", fmt_axis(ax[0], axis_style), fmt_axis(ax[1], axis_style), fmt_axis(ax[2], axis_style)),
+        ];
+        if !limit_xml.is_empty() {
+            children.push(limit_xml.clone());
+        }
+        if rng.bool(0.4) {
+            for i in (1..children.len()).rev() {
+                children.swap(i, rng.usize(i + 1));
+            }
+            if !features.iter().any(|f| f == "shuffled_child_elements") {
+                features.push("shuffled_child_elements".to_string());
+            }
+        }
+        joint_xml.push(format!("    <joint name=\"{}\" type=\"{}\">\n{}    </joint>\n", names[j], jtype, children.concat()));
     }
     // extra fixed joints that must be ignored
     let mut extras = vec![];
@@ -450,7 +465,13 @@ fn errors(idx: u64, rng: &mut Rng, mon: &mut Mon) {
         }
         2 => match rng.usize(3) {
             0 => g.text.replacen("</joint>", "</joint", 1),
-            1 => g.text[..g.text.len() * 2 / 3].to_string(),
+            1 => {
+                let mut cut = g.text.len() * 2 / 3;
+                while !g.text.is_char_boundary(cut) {
+                    cut -= 1;
+                }
+                g.text[..cut].to_string()
+            }
             _ => g.text.replacen("<origin", "<origin <", 1),
         },
         _ => {
@@ -459,7 +480,8 @@ fn errors(idx: u64, rng: &mut Rng, mon: &mut Mon) {
             match g.text.find(&marker) {
                 Some(pos) => {
                     let rest = &g.text[pos..];
-                    let o = rest.find("xyz=\"").unwrap() + pos + 5;
+                    // (the origin's xyz, wherever the origin element stands among the children)
+                    let o = rest.find("<origin xyz=\"").unwrap() + pos + 13;
                     let end = g.text[o..].find('"').unwrap() + o;
                     let bad = *rng.pick(&["0 0", "a b c", "0 0 0 0", "1,2,3", ""]);
                     format!("{}{}{}", &g.text[..o], bad, &g.text[end..])
@@ -511,7 +533,8 @@ fn mutants(idx: u64, rng: &mut Rng, mon: &mut Mon) {
             }
         }
         4 => {
-            let repl = *rng.pick(&["", "NaN NaN NaN", "${radians(x)}", "${radians(1e3)}", "1e999", "- - -", "inf", "0 0 0 ", "\u{00e9}"]);
+            // (incl. vectors with too few / too many numbers)
+            let repl = *rng.pick(&["", "NaN NaN NaN", "${radians(x)}", "${radians(1e3)}", "1e999", "- - -", "inf", "0 0 0 ", "\u{00e9}", "0 -1", "1", "0 0 0 0 1", " "]);
             let t = g.text.clone();
             let cands: Vec<usize> = t.match_indices("=\"").map(|(i, _)| i + 2).collect();
             let o = cands[rng.usize(cands.len())];
